@@ -18,7 +18,9 @@ RE_INT = re.compile(r"^[+-]?\d+$")
 RE_FLOAT = re.compile(r"^[+-]?(\d+\.?\d*|\.\d+)([eE][+-]?\d+)?$")
 RE_TOK = re.compile(r"\S+")
 RE_SYMBOL = re.compile(r"^([A-Za-z]{1,3}|\*)$")
-MOL2_BOND_TYPES = {"1", "2", "3", "am", "ar", "du", "un", "nc"}
+# the Tripos vocabulary plus the orders 4, 5, 6 which molli documents as accepted extensions: the
+# reference has to accept everything a reader may legitimately take for a well-formed record
+MOL2_BOND_TYPES = {"1", "2", "3", "4", "5", "6", "am", "ar", "du", "un", "nc"}
 MOL2_STATUS_WORDS = {"system", "invalid_charges", "analyzed", "substituted", "altered", "ref_angle"}
 
 
@@ -212,7 +214,7 @@ def ref_mol2(text):
             if (cur["nb"] or 0) > 0:
                 raise Illformed("BOND section missing")
             cur["bonds"] = []
-        mols.append((cur["name"], tuple(cur["atoms"]), tuple(cur["bonds"])))
+        mols.append((cur["name"], tuple(cur["atoms"]), tuple(cur["bonds"]), tuple(cur["attrs"])))
 
     while i < n:
         s = lines[i].strip()
@@ -228,12 +230,13 @@ def ref_mol2(text):
                     raise Illformed("short MOLECULE record")
                 name = lines[i + 1].strip()
                 cnt = lines[i + 2].split()
-                if not (1 <= len(cnt) <= 5) or not all(is_int(x) for x in cnt) or any(int(x) < 0 for x in cnt):
+                # (surplus integer tokens are tolerated: a reader may rightly ignore them)
+                if len(cnt) < 1 or not all(is_int(x) for x in cnt) or any(int(x) < 0 for x in cnt):
                     raise Illformed("counts line")
                 for k in (3, 4):
                     if lines[i + k].strip().startswith("@"):
                         raise Illformed("short MOLECULE record")
-                cur = {"name": name, "na": int(cnt[0]), "nb": int(cnt[1]) if len(cnt) > 1 else None, "atoms": None, "bonds": None}
+                cur = {"name": name, "na": int(cnt[0]), "nb": int(cnt[1]) if len(cnt) > 1 else None, "atoms": None, "bonds": None, "attrs": []}
                 i += 5
                 if i < n and not lines[i].strip().startswith("@"):
                     st = lines[i].strip()
@@ -255,10 +258,10 @@ def ref_mol2(text):
                     if i >= n:
                         raise Illformed("short ATOM section")
                     t = lines[i].split()
-                    if len(t) < 6 or len(t) > 10 or not is_int(t[0]) or not all(is_float(x) for x in t[2:5]):
+                    if len(t) < 6 or not is_int(t[0]) or not all(is_float(x) for x in t[2:5]):
                         raise Illformed("atom line")
-                    if len(t) > 6 and not is_int(t[6]):
-                        raise Illformed("atom line subst id")
+                    # (the substructure id / name columns carry nothing a molecule is built from: a
+                    #  reader may rightly ignore them, so they are not validated)
                     if len(t) > 8 and not is_float(t[8]):
                         raise Illformed("atom line charge")
                     if t[5].startswith("@") or not re.match(r"^[A-Za-z]", t[5]):
@@ -277,13 +280,30 @@ def ref_mol2(text):
                     if i >= n:
                         raise Illformed("short BOND section")
                     t = lines[i].split()
-                    if len(t) < 4 or len(t) > 5 or not all(is_int(x) for x in t[:3]) or t[3] not in MOL2_BOND_TYPES:
+                    if len(t) < 4 or not all(is_int(x) for x in t[:3]) or t[3] not in MOL2_BOND_TYPES:
                         raise Illformed("bond line")
                     a1, a2 = int(t[1]), int(t[2])
                     if not (1 <= a1 <= cur["na"] and 1 <= a2 <= cur["na"]):
                         raise Illformed("bond endpoint")
                     bonds.append((a1, a2, t[3]))
                 cur["bonds"] = bonds
+                section = None
+            elif rest in ("UNITY_ATOM_ATTR", "UNITY_BOND_ATTR"):
+                # count-driven attribute lists: "<id> <n>" followed by n lines "<name> <value>"
+                limit = cur["na"] if rest == "UNITY_ATOM_ATTR" else (cur["nb"] or 0)
+                while i + 1 < n and not lines[i + 1].strip().startswith("@"):
+                    i += 1
+                    h = lines[i].split()
+                    if len(h) != 2 or not all(is_int(x) for x in h) or not (1 <= int(h[0]) <= limit) or int(h[1]) < 0:
+                        raise Illformed("attribute list header")
+                    for _ in range(int(h[1])):
+                        i += 1
+                        if i >= n:
+                            raise Illformed("short attribute list")
+                        av = lines[i].split()
+                        if len(av) != 2 or av[0].startswith("@"):
+                            raise Illformed("attribute line")
+                        cur["attrs"].append((rest, int(h[0]), av[0], av[1]))
                 section = None
             else:
                 section = "other"
@@ -360,8 +380,9 @@ def last_block_start(doc):
     return 0
 
 
-def enumerate_faults(doc, fill="?!", infix="x", byte_cuts=True):
-    """every single structural fault of the document, as JSON-able descriptors (simplest first)."""
+def enumerate_faults(doc, fill="?!", infix="x", byte_cuts=True, num="7"):
+    """every single structural fault of the document, as JSON-able descriptors (simplest first).
+    `num` is the stray NUMERIC token of the token-adding faults (an integer that is no mol2 bond type)."""
     n = len(doc)
     # truncation at every line boundary (keep the first k lines), k = 0 .. n-1
     for k in range(n - 1, -1, -1):
@@ -376,9 +397,23 @@ def enumerate_faults(doc, fill="?!", infix="x", byte_cuts=True):
         yield {"kind": "delete-line", "line": i}
     for i in range(n):
         yield {"kind": "duplicate-line", "line": i}
+    # a stray non-keyword line in front of every line and at the end
+    for i in range(n + 1):
+        yield {"kind": "insert-line", "line": i, "fill": fill}
     for i in range(n):
         text, cls, block, toks = doc[i]
         fixed = cls in FIXED_GRAMMAR
+        if fixed:
+            # token-ADDING damage that keeps every token well-formed: a stray number at every position,
+            # every numeric token doubled, every numeric token split in two at every interior position
+            for j in range(len(toks) + 1):
+                yield {"kind": "insert-number", "line": i, "pos": j, "num": num}
+            for j, (a, b, role, flag) in enumerate(toks):
+                tok = text[a:b]
+                if is_int(tok) or is_float(tok):
+                    yield {"kind": "duplicate-token", "line": i, "tok": j}
+                    for c in range(1, len(tok)):
+                        yield {"kind": "split-token", "line": i, "tok": j, "at": c}
         for j, (a, b, role, flag) in enumerate(toks):
             tok = text[a:b]
             if fixed:
@@ -416,6 +451,41 @@ def apply_fault(doc, f):
         return doc[:i] + [(cut, cls, block, toks2)]
     if kind == "delete-line":
         return doc[:i] + doc[i + 1 :]
+    if kind == "insert-line":
+        junk = f["fill"] + " " + f["fill"] + "\n"
+        block = doc[i][2] if i < len(doc) else (doc[-1][2] if doc else 0)
+        pre = doc[:i]
+        if pre and not pre[-1][0].endswith("\n"):
+            pre = pre[:-1] + [(pre[-1][0] + "\n",) + pre[-1][1:]]
+        return pre + [(junk, "junk", block, _toks(junk, []))] + doc[i:]
+    if kind in ("insert-number", "duplicate-token", "split-token"):
+        text, cls, block, toks = doc[i]
+        metas = [(r, fl) for (_, _, r, fl) in toks]
+        if kind == "insert-number":
+            j = f["pos"]
+            if j < len(toks):
+                a = toks[j][0]
+                new = text[:a] + f["num"] + " " + text[a:]
+            else:
+                body = text.rstrip("\r\n")
+                new = body + " " + f["num"] + text[len(body) :]
+            metas = metas[:j] + [("extra", "F")] + metas[j:]
+        elif kind == "duplicate-token":
+            j = f["tok"]
+            a, b = toks[j][0], toks[j][1]
+            new = text[:b] + " " + text[a:b] + text[b:]
+            metas = metas[:j] + [(metas[j][0], "F"), (metas[j][0], "F")] + metas[j + 1 :]
+        else:
+            j = f["tok"]
+            a, b = toks[j][0], toks[j][1]
+            c = a + f["at"]
+            new = text[:c] + " " + text[c:]
+            metas = metas[:j] + [(metas[j][0], "F"), (metas[j][0], "F")] + metas[j + 1 :]
+        spans = [(m.start(), m.end()) for m in RE_TOK.finditer(new)]
+        if len(spans) != len(metas):
+            raise ValueError("token bookkeeping")
+        toks2 = tuple((x, y, r, fl) for (x, y), (r, fl) in zip(spans, metas))
+        return doc[:i] + [(new, cls, block, toks2)] + doc[i + 1 :]
     if kind == "duplicate-line":
         l = doc[i]
         if not l[0].endswith("\n"):
@@ -478,7 +548,14 @@ def apply_fault(doc, f):
 def fault_location(doc, f):
     """(line class, block position, token role) of a fault, for the signature"""
     i = f["line"]
-    nblocks = (max(l[2] for l in doc) + 1) if doc else 1
+    if f["kind"] == "insert-line":
+        if i >= len(doc):
+            return ("end", "first-block" if not doc or doc[-1][2] == 0 else "later-block", None)
+        return ("before-" + doc[i][1], "first-block" if doc[i][2] == 0 else "later-block", None)
+    if f["kind"] == "insert-number":
+        toks = doc[i][3]
+        role = ("before-" + toks[f["pos"]][2]) if f["pos"] < len(toks) else "end"
+        return (doc[i][1], "first-block" if doc[i][2] == 0 else "later-block", role)
     if f["kind"] == "truncate" and f["byte"] == 0:
         if i >= len(doc):
             return ("end", "first-block", None)
